@@ -45,11 +45,11 @@ def free_port(kind=socket.SOCK_STREAM):
     raise RuntimeError("no free port")
 
 
-def wait_listen(port, timeout=10.0):
+def wait_listen(port, timeout=10.0, host=None):
     t0 = time.time()
     while time.time() - t0 < timeout:
         try:
-            s = socket.create_connection((LOOP, port), timeout=0.3)
+            s = socket.create_connection((host or LOOP, port), timeout=0.3)
             s.close()
             return True
         except OSError:
@@ -113,6 +113,8 @@ class Proxy:
         self.cfg_path = os.path.join(self.dir, "config.yaml")
         open(self.cfg_path, "w").write(yaml_dump(cfg) + "\n")
         self.ports = [int(l["bind"].rsplit(":", 1)[1]) for l in listeners if l.get("protocol", "tcp") != "udp" and l.get("type", l["name"]) != "quic"]
+        # listeners bound to an IPv6 address ("[addr]:port") are probed there
+        self.hosts = {int(l["bind"].rsplit(":", 1)[1]): l["bind"].rsplit(":", 1)[0].strip("[]") for l in listeners if l["bind"].startswith("[")}
         self.proc = None
         self.env = dict(ENV)
         self.env["RUST_LOG"] = "warn"
@@ -129,7 +131,7 @@ class Proxy:
             pre = lambda: resource.setrlimit(resource.RLIMIT_NOFILE, (n, n))
         self.stderr = open(os.path.join(self.dir, "stderr.log"), "w")
         self.proc = subprocess.Popen([self.binary, "-c", self.cfg_path], env=self.env, cwd=self.dir, stdout=self.stderr, stderr=self.stderr, preexec_fn=pre)
-        ok = all(wait_listen(p) for p in self.ports + ([self.api_port] if self.api_port else []))
+        ok = all(wait_listen(p, host=self.hosts.get(p)) for p in self.ports + ([self.api_port] if self.api_port else []))
         if not ok or self.proc.poll() is not None:
             err = open(os.path.join(self.dir, "stderr.log")).read()[-2000:]
             self.stop()
